@@ -18,6 +18,8 @@ _last = {}
 def pre(repo):
     """translator: regenerate lean/LibfiberVerif/Gen/CtxAsm.lean from <repo>/src/fiber_context.c
     (written only when the content differs); raises on anything it does not understand."""
+    import create_extract
+    create_extract.check(repo)  # release-exactly-once where the context harness does not reach (src/fiber.c)
     x, changed = ctx_extract.generate(repo)
     _last["summary"] = ctx_extract.summary(x)
     _last["changed"] = changed
